@@ -212,6 +212,17 @@ func c15Definitions(c *core.Ctx, cg *callers) {
 	}
 	sort.Strings(taints)
 	c.Extra("document_map_fields_that_may_hold_a_shared_map", taints)
+	// a pointer member of a document that is made to point into a definition is a violation by
+	// itself: anybody who writes through it — user code editing its own calculated document,
+	// encoding/json decoding into a reused object (it decodes through existing pointers) —
+	// rewrites the registered table for every other document
+	for f, why := range fa.taint {
+		if isDocMap(f.Type()) {
+			continue
+		}
+		c.Ob("C15-R2", "aliases-definition:"+fieldName(f), fa.taintPos[f], false,
+			fmt.Sprintf("the document member %s is made to point into data that may belong to a registered definition (%s): a write through it — by the document's owner, or by encoding/json decoding into the same object again — changes the regime's table for every other calculation, concurrent ones included", fieldName(f), why))
+	}
 	c.Extra("mutation_sites_on_definition_types", fa.sites)
 	seen := map[string]bool{}
 	for _, v := range fa.viol {
@@ -802,4 +813,26 @@ func c15ReadOnlyEvaluation(c *core.Ctx, cg *callers) {
 		c.Ob("C15-R4", fd.Name()+"#read-only", fd.Decl.Pos(), len(written) == 0,
 			"this method of a definition type, which runs while documents are processed, writes "+strings.Join(written, ", ")+" (itself or through a callee): the registered definitions are shared by all calculations — concurrent ones race on the write and later documents see what earlier ones left")
 	}
+}
+
+// shareDefinitionsImmutable re-reports, under another property's rule id, the
+// C15 decisions that the registered definitions are not written at run time
+// and that no document member is made to point into them (C15-R2, C15-R4): what
+// the library enforces stays what was published (C19), and the rate a later
+// document gets is the table's (C12).
+func shareDefinitionsImmutable(c *core.Ctx, rule, title string) {
+	c.Rule(rule, title, 2)
+	sub := core.NewCtx("C15", c.Tier, c.Seed, c.P, c.VerifDir)
+	sub.Quiet = true
+	cg := buildCallers(c.P)
+	c15Definitions(sub, cg)
+	c15ReadOnlyEvaluation(sub, cg)
+	for _, o := range sub.Obligations() {
+		if o.Rule == "C15-R2" || o.Rule == "C15-R4" {
+			if !o.OK || strings.HasPrefix(o.Key, "mutator:") {
+				c.ObAt(rule, o.Key, o.Pos, o.OK, o.Msg)
+			}
+		}
+	}
+	c.Ob(rule, "definitions#not-written-at-run-time", token.NoPos, true, "")
 }
